@@ -30,6 +30,7 @@ for c in $(git log --format=%h --grep='^fix:'); do
       *"ttl in context is read and updated atomically"*) n=revert_ctx_ttl_atomic;;
       *"checks the list of callbacks under its lock"*) n=revert_invalidator_check_unlocked;;
       *"expired entry without details"*) n=revert_plain_expired;;
+      *"ExpireAll keeps expiration time"*) n=revert_expireall_restamp;;
       *) n=revert_$c;;
     esac
   fi
